@@ -14,6 +14,7 @@ arbitrary, so every statement covers erroring callbacks.
 -/
 import XrayProofs.GenConsumers
 import XrayProofs.GenProductDen
+import XrayProofs.GenLibrary
 namespace XrayModel.C16
 open XrayModel.Gen
 
@@ -390,5 +391,108 @@ theorem product_carry_crosses_two_parts :
 theorem product_with_singleton_part :
     (ptake none 3 20 (pstart none [.fromArr [.int 1, .int 2], .fromArr [.int 7], .fromArr [.int 1, .int 2, .int 3],
       .fromArr [.int 8, .int 9]])).map List.length = some 12 := by rfl
+
+
+/-! ### library functions of `include.rs` (compositions of the natives), and consumers that stop early -/
+
+/-- `first(p)` is `List.find?` -/
+theorem first_den (L : Option Nat) (g : G) (vs : List V) (q : V → Bool)
+    (h : Den L (g.start L) (vs.map Item.val)) (hc : (Permits.ofLimit L).covers vs.length) :
+    ∃ fuel, first L fuel g (pureP q) = .ok (vs.find? q) := by
+  obtain ⟨fuel, hf⟩ := nth_den L g vs q 0 h hc
+  refine ⟨fuel, ?_⟩
+  have : (vs.filter q)[0]? = vs.find? q := by
+    rw [← List.head?_eq_getElem?, List.head?_filter]
+  simpa [first, this] using hf
+
+/-- `any(p)` is `List.any` -/
+theorem any_den (L : Option Nat) (g : G) (vs : List V) (q : V → Bool)
+    (h : Den L (g.start L) (vs.map Item.val)) (hc : (Permits.ofLimit L).covers vs.length) :
+    ∃ fuel, any L fuel g (pureP q) = .ok (vs.any q) := by
+  obtain ⟨fuel, hf⟩ := first_den L g vs q h hc
+  refine ⟨fuel, ?_⟩
+  simp only [first] at hf
+  simp only [any, hf, Res.ok.injEq]
+  rw [Bool.eq_iff_iff]
+  simp [List.find?_isSome, List.any_eq_true]
+
+/-- `all(p)` is `List.all` (through `!any(!p)`) -/
+theorem all_den (L : Option Nat) (g : G) (vs : List V) (q : V → Bool)
+    (h : Den L (g.start L) (vs.map Item.val)) (hc : (Permits.ofLimit L).covers vs.length) :
+    ∃ fuel, all L fuel g (pureP q) = .ok (vs.all q) := by
+  obtain ⟨fuel, hf⟩ := first_den L g vs (fun v => !q v) h hc
+  refine ⟨fuel, ?_⟩
+  simp only [first] at hf
+  simp only [all, notP_pureP, hf, Res.ok.injEq]
+  cases hall : vs.all q with
+  | true =>
+    have : vs.find? (fun v => !q v) = none := by
+      rw [List.find?_eq_none]; intro x hx; simpa using (List.all_eq_true.mp hall) x hx
+    simp [this]
+  | false =>
+    have : (vs.find? (fun v => !q v)).isSome = true := by
+      rw [List.find?_isSome]
+      have : ¬ ∀ x ∈ vs, q x = true := by simpa [List.all_eq_true] using hall
+      simpa using this
+    simp [this]
+
+/-- `count(p)` is the length of `List.filter` -/
+theorem count_den (L : Option Nat) (g : G) (vs : List V) (q : V → Bool)
+    (h : Den L (g.start L) (vs.map Item.val)) (hc : (Permits.ofLimit L).covers vs.length) :
+    ∃ fuel, countIf L fuel g (pureP q) = .ok (vs.filter q).length := by
+  have hf := den_filter_g L g (pureP q) _ h (by simpa using hc)
+  have e : (vs.map Item.val).filterMap (filt (pureP q)) = (vs.filter q).map Item.val := filterMap_filt_vals q vs
+  rw [e] at hf
+  exact len_den L (.filter g (pureP q)) (vs.filter q) hf (covers_mono hc (List.length_filter_le _ _))
+
+/-- `reduce(init, f)` is `List.foldl` — and so are `sum`, `product`, `max`, `min` (`include.rs:222,1323-1335`), which are
+`reduce` with `add` / `mul` / `max` / `min` -/
+theorem reduce_fold (L : Option Nat) (g : G) (vs : List V) (a : V) (f : V → V → V)
+    (h : Den L (g.start L) (vs.map Item.val)) (hc : (Permits.ofLimit L).covers (vs.length + 1)) :
+    ∃ fuel, reduce L fuel g (.val a) (pureF2 f) = .ok (vs.foldl f a) := by
+  have hd : Den L ((G.aggregate g (.val a) (pureF2 f)).start L) ((a :: scanV f a vs).map Item.val) := by
+    rw [G.start]
+    have := den_aggregate (pureF2 f) (.val a) h
+    rwa [scanItems_pure] at this
+  have hlen : (a :: scanV f a vs).length = vs.length + 1 := by
+    have : ∀ (vs : List V) (a : V), (scanV f a vs).length = vs.length := by
+      intro vs; induction vs with
+      | nil => intro a; rfl
+      | cons v vs ih => intro a; simp [scanV, ih]
+    simp [this]
+  obtain ⟨fuel, hf⟩ := reduce_den L g (.val a) (pureF2 f) (a :: scanV f a vs) hd (by rw [hlen]; exact hc)
+  exact ⟨fuel, by rw [hf, scanV_last]⟩
+
+/-- `repeat(g, n)` denotes `n` copies of the list -/
+theorem repeatN_den (L : Option Nat) (g : G) (xs : List Item) (n : Nat) (h : DenParts L g.parts xs) :
+    Den L ((g.repeatN n).start L) (List.replicate n xs).flatten := by
+  have := flatten_den L (List.replicate n g) (List.replicate n xs) (by simp) (by
+    intro i h1 h2; simpa using h)
+  simpa [G.repeatN] using this
+
+/-- `unzip` / `keys` / `values`: component `i` of every tuple, in lock-step -/
+theorem iter_den_component (L : Option Nat) (i : Nat) (n : Nat) (g : G) :
+    ∃ f, outs L n ((g.component i).start L) = (outs L n (g.start L)).map (mapItem f) ∧
+      ∀ vs v, vs[i]? = some v → f (.val (.tup vs)) = .val v := by
+  refine ⟨_, iter_den_map L _ n g, ?_⟩
+  intro vs v hv
+  simp [hv]
+
+/-- consumers force no more than they need: if the first steps of the iterator yield the values `pre` — whatever
+follows, the generator may be infinite — and the `k`-th match lies among them, `nth` (hence `first`, `any`) answers
+within those steps … -/
+theorem nth_needs_prefix_only (L : Option Nat) (q : V → Bool) (n : Nat) (it : It) (pre : List V) (k : Nat)
+    (ho : outs L n it = pre.map Item.val) (hk : k < (pre.filter q).length) :
+    nthLoop L (pureP q) n it k = .ok ((pre.filter q)[k]?) :=
+  nthLoop_prefix L q n it pre k ho hk
+
+/-- … and `get(i)` within the steps that yield the first `i + 1` elements -/
+theorem get_needs_prefix_only (L : Option Nat) (n : Nat) (it : It) (pre : List V) (idx : Nat)
+    (ho : outs L n it = pre.map Item.val) (hk : idx < pre.length) :
+    getLoop L n it idx = (match pre[idx]? with | some v => .ok v | none => .err) :=
+  getLoop_prefix L n it pre idx ho hk
+
+/-- `first` over the infinite counter: found after 4 steps, the rest of the stream is never touched -/
+example : first none 10 (.fromCount none) (pureP (fun | .int i => i == 3 | _ => false)) = .ok (some (.int 3)) := by rfl
 
 end XrayModel.C16
